@@ -109,6 +109,25 @@ def eval_program(arg) -> dict:
                                       'detail': {}, 'case': case})
         if mci:
             late_registration_refused(log, clients)
+    if mci and clients:
+        # user code inside the logger calls back into the shell: whenever the shell logs during
+        # final construction, the logger registers one more client (whose events nobody binds),
+        # under a name that sorts before all others.  Whatever the shell makes of that - it may
+        # not log there at all (it does not), refuse the registration, or fail the construction
+        # with a binding error - it may not end up finally constructed with a registered client
+        # whose events are unbound
+        script = '\n'.join(scripts.preamble(prog, clients=clients) +
+                           ['nestop log register !first', 'final', 'disarm log', 'clients']) + '\n'
+        log = progrun.run_and_collect(prog, script, flavor, 'logger_registers', out, case)
+        if log is not None:
+            cnt['final_constructions_with_a_logger_that_registers_a_client'] = 1
+            ids = next((r['d']['ids'] for r in log if r['kind'] == 'clients'), '')
+            came = any(r['kind'] == 'registered' and r['d']['client'] == '!first' for r in log)
+            if any(r['kind'] == 'final_ok' for r in log) and (came or '!first' in ids.split(',')):
+                out['violations'].append({
+                    'mechanism': 'final-construction-succeeded-with-an-unbound-registered-client',
+                    'detail': {'registered_from': 'logger callback during FinalConstruct',
+                               'clients': ids}, 'case': case})
     if mci:
         # a multi-client port nobody has registered on yet: nothing is unbound, and the
         # registration is closed all the same
@@ -163,6 +182,7 @@ def main(tier: str) -> int:
     run = common.Run(PROP, tier, level='fault_enumeration')
     n = 10 if tier == 'quick' else 200
     run.require('final_constructions', 'all_bound_runs', 'user_side_bindings_omitted',
+                'final_constructions_with_a_logger_that_registers_a_client',
                 'component_side_bindings_omitted', 'omitted_on_STS_port', 'omitted_on_MTS_port',
                 'omitted_on_multiclient_port', 'late_registrations',
                 'late_registration_after_0_clients',
